@@ -448,6 +448,9 @@ async fn run_stale(cfg: &MigCfg, mut w: ClusterWorld, net: Net, head: Vec<Value>
 fn annotate_restores(log: &mut [Value]) {
     use std::collections::HashMap;
     let mut last_pttl: HashMap<String, (String, String)> = HashMap::new(); // key -> (node, raw reply)
+    // PTTL replies seen for a key since its last RESTORE: the scan and a pull (or two transfer attempts) can interleave, and the
+    // RESTORE of one may follow the PTTL of the other; the pairing is only trusted when all of them agree
+    let mut since_restore: HashMap<String, Vec<String>> = HashMap::new();
     for e in log.iter_mut() {
         if e["kind"] != "redis" {
             continue;
@@ -457,8 +460,11 @@ fn annotate_restores(log: &mut [Value]) {
         let node = e["node"].as_str().unwrap_or("").to_string();
         if name == "PTTL" {
             let raw = e["reply"]["s"].as_str().unwrap_or("?").to_string();
+            since_restore.entry(key.clone()).or_default().push(raw.clone());
             last_pttl.insert(key, (node, raw));
         } else if name == "RESTORE" {
+            let seen = since_restore.remove(&key).unwrap_or_default();
+            let ambiguous = seen.iter().any(|r| Some(r) != seen.first());
             let ttl_raw = e["cmd"][2].as_str().unwrap_or("?").to_string();
             let kind = |s: &str| -> &'static str {
                 match s.parse::<i128>() {
@@ -471,7 +477,7 @@ fn annotate_restores(log: &mut [Value]) {
                 }
             };
             let (pnode, praw) = match last_pttl.get(&key) {
-                Some((n, r)) if *n != node => (n.clone(), r.clone()),
+                Some((n, r)) if *n != node && !ambiguous => (n.clone(), r.clone()),
                 _ => (String::new(), "none".to_string()),
             };
             let le = match (ttl_raw.parse::<i128>(), praw.parse::<i128>()) {
@@ -489,7 +495,11 @@ pub fn run_many<W: Write>(out: &mut W, count: u64, seed: u64, directed: bool, st
     // runtime; with one runtime for hundreds of runs a thorough part grew to several GB and the OOM killer took it
     let mk = || tokio::runtime::Builder::new_current_thread().enable_all().start_paused(true).build().expect("rt");
     let mut rt = mk();
+    let only: Option<u64> = std::env::var("UVERIF_ONLY").ok().and_then(|v| v.parse().ok());
     for i in 0..count {
+        if only.map(|o| o != i).unwrap_or(false) {
+            continue;
+        }
         if i > 0 && i % 8 == 0 {
             rt = mk();
         }
